@@ -1,8 +1,18 @@
 import P2.Drv.ParsePlonk
 import P2.Model.Compress
+import P2.Model.Decompress
+import P2.Drv.C03
+import P2.Drv.C17
 import P2.Drv.Util
-/- C16 requests: the compressed form of a dumped FRI proof computed by the model, and the model's
-decompression of the Merkle multi-proofs the implementation produced. -/
+/- C16 requests: the compressed form of a dumped FRI proof computed by the model, the model's
+decompression of the Merkle multi-proofs the implementation produced, and
+  decompress  <common> <verifier-only> <compressed proof with pis>
+      → the FRI proof inside `CompressedProofWithPublicInputs::decompress` as the flat token list of
+        `Toks::fri_proof`, or `PANIC`
+  vcompressed <common> <verifier-only> <compressed proof with pis>
+      → verdict of `CompressedProofWithPublicInputs::verify` (`ACCEPT`, `REJECT:<stage>`, `PANIC`)
+  pcompress   <common> <verifier-only> <proof with pis>
+      → `ProofWithPublicInputs::compress` (query indices from the transcript), shown like `compress` -/
 namespace P2.Drv.C16
 open P2 P2.Fri P2.Compress P2.Drv.Parser
 
@@ -41,8 +51,43 @@ def pPathReq : Parser String := do
     | none => "DECOMPRESS-PANIC"
   pure ok
 
+/-- the flat token list of `Toks::fri_proof` -/
+def friProofToks (p : Fri.Proof) : List Nat :=
+  let digests (ds : List Merkle.Digest) : List Nat := ds.length :: ds.flatMap fun d => d.map (·.val)
+  let exts (xs : List GL2) : List Nat := xs.length :: xs.flatMap fun x => [x.a.val, x.b.val]
+  [p.commitCaps.length] ++ p.commitCaps.flatMap digests ++ [p.queries.length] ++
+  p.queries.flatMap (fun q =>
+    [q.initial.length] ++ q.initial.flatMap (fun (leaf, mp) => (leaf.length :: leaf.map (·.val)) ++ digests mp) ++
+    [q.steps.length] ++ q.steps.flatMap (fun st => exts st.evals ++ digests st.merkleProof)) ++
+  exts p.finalPoly ++ [p.powWitness.val]
+
+def pDecompressReq : Parser String := do
+  let c ← pCommon
+  let vd ← pVerifierOnly
+  let cpp ← C17.pCompressedProofWithPis
+  pure (match Decompress.decompressProof c vd.circuitDigest cpp with
+    | none => "PANIC"
+    | some pp => joinNats (friProofToks pp.proof.openingProof))
+
+def pVerifyCompressedReq : Parser String := do
+  let c ← pCommon
+  let vd ← pVerifierOnly
+  let cpp ← C17.pCompressedProofWithPis
+  pure (C03.showVerdict (Decompress.verifyCompressed c vd cpp))
+
+def pPlonkCompressReq : Parser String := do
+  let c ← pCommon
+  let vd ← pVerifierOnly
+  let pp ← pProofWithPis
+  pure (match Decompress.compressProof c vd.circuitDigest pp with
+    | none => "PANIC"
+    | some cpp => showCompressed cpp.proof.openingProof)
+
 def handle (op : String) (a : List Nat) : Option String :=
   match op, a with
+  | "decompress", toks => some ((Parser.runAll pDecompressReq toks).getD "PARSE-ERROR")
+  | "vcompressed", toks => some ((Parser.runAll pVerifyCompressedReq toks).getD "PARSE-ERROR")
+  | "pcompress", toks => some ((Parser.runAll pPlonkCompressReq toks).getD "PARSE-ERROR")
   | "compress", toks => some ((Parser.runAll pCompressReq toks).getD "PARSE-ERROR")
   | "paths", toks => some ((Parser.runAll pPathReq toks).getD "PARSE-ERROR")
   | _, _ => none
